@@ -23,7 +23,7 @@ ID = 'C11'
 
 def spec(tick, unit, **kw):
     d = {'tick': tick, 'unit': unit, 'side': 'long', 'enter': {'when': 'flat', 'legs': [[1, -1]]}, 'on_open': {'sl': 'all', 'tp': 'all', 'sl_d': 2, 'tp_d': 2}, 'cancel_entry': True,
-         'indicator': True}
+         'indicator': True, 'shared': True}
     d.update(kw)
     return d
 
